@@ -157,6 +157,41 @@ J_iv_len(e) ==
                      \o V("in_hours", p.inh = <<IF MagHour(want) = 0 THEN 0 ELSE D3Sign(want), MagHour(want)>>, MagHour(want))
                 ELSE V("length-64us", Within64(p.r3, want), want)))
 
+\* relations derived from the elapsed time: closest / farthest of two candidates, the average of two values,
+\* same calendar day, same (month, day).  Ties between the candidates are not judged; the average may round
+\* either way (twice the result is within one microsecond - one day for Dates - of the sum).
+SamePt(post, v) == IF IsDate(v) THEN post.k = "date" /\ post.w = v.w
+                   ELSE post.k = "dt" /\ ZRef(post.z) = ZRef(v.z) /\ post.w = v.w /\ PointOf(post) = PointOf(v)
+J_rel(e) ==
+  LET a == e.pre[1]  b == e.pre[2]  p == e.post  m == e.a.m
+      \* the receiver and a candidate of the same zone both inside a repeated hour (finding C05-magnitude-inside-overlap)
+      OvPair(x) == PClass(a) = "repeated" /\ PClass(x) = "repeated" /\ ZRef(x.z) = ZRef(a.z)
+      cls == <<m, a.k>> \o (IF Len(e.pre) = 3 THEN <<PClass(a), PClass(b), PClass(e.pre[3])>> ELSE <<PClass(a), PClass(b)>>)
+             \o <<"overlap-pair", B(\E i \in 2..Len(e.pre) : OvPair(e.pre[i]))>>
+  IN IF \E i \in 1..Len(e.pre) : PClass(e.pre[i]) = "skipped" THEN R(<<"ill-formed-endpoint">>, <<>>)
+     ELSE IF p.k = "exc" THEN R(cls, << <<"unexpected-exception", p.names>> >>)
+     ELSE CASE m \in {"closest", "farthest"} ->
+                 LET c == e.pre[3]  db == D3Abs(Elapsed(a, b))  dc == D3Abs(Elapsed(a, c))
+                     want == IF (m = "closest") = D3Lt(db, dc) THEN b ELSE c
+                 IN IF db = dc THEN R(cls \o <<"tie">>, <<>>)
+                    ELSE R(cls \o <<"gap", (IF D3Abs(D3Sub(db, dc)) = <<0, 0, D3Abs(D3Sub(db, dc))[3]>> THEN "sub-second" ELSE "wide")>>,
+                           V(m, SamePt(p, want), want.w))
+            [] m = "average" ->
+                 LET el == Elapsed(a, b)
+                     got == IF p.k \in {"dt", "date"} THEN Elapsed(a, p) ELSE <<0, 0, 0>>
+                     err == D3Sub(D3MulInt(got, 2), el)
+                     unit == IF IsDate(a) THEN <<1, 0, 0>> ELSE <<0, 0, 1>>
+                 IN R(cls \o <<N(D3Sign(el) + 1), B(Exact(el))>>,
+                      IF ~Exact(el) THEN <<>>
+                      ELSE V("kind", p.k = a.k, a.k)
+                           \o V("average", D3Le(D3Abs(err), unit), el)
+                           \o (IF IsDate(a) THEN <<>> ELSE V("zone", p.k = "dt" /\ ZRef(p.z) = ZRef(a.z), a.z)))
+            [] m = "is_same_day" ->
+                 R(cls, V("is_same_day", p.v = (<<a.w[1], a.w[2], a.w[3]>> = <<b.w[1], b.w[2], b.w[3]>>), "same wall-clock date"))
+            [] m = "is_anniversary" ->
+                 R(cls, V("is_anniversary", p.v = (<<a.w[2], a.w[3]>> = <<b.w[2], b.w[3]>>), "same month and day")
+                        \o V("is_birthday", p.v2 = p.v, "alias"))
+
 \* ---- C06 -----------------------------------------------------------------------------
 ValidPoint(v, cmp) == /\ cmp.k = "dt" /\ ZRef(cmp.z) = ZRef(v.z) /\ cmp.w = v.w
                       /\ InstOf(DT(cmp.z, cmp.w, cmp.f)) = InstOf(DT(v.z, v.w, v.f))
@@ -816,6 +851,7 @@ Judge(e) == CASE e.op = "in_tz" -> J_in_tz(e)
               [] e.op = "add_cal" -> J_add_cal(e)
               [] e.op = "add_cal_date" -> J_add_cal_date(e)
               [] e.op = "iv_len" -> J_iv_len(e)
+              [] e.op = "rel" -> J_rel(e)
               [] e.op = "iv_comp" -> J_iv_comp(e)
               [] e.op \in {"start_of", "end_of"} -> J_start_end(e)
               [] e.op \in {"next", "previous"} -> J_nav(e)
